@@ -156,6 +156,9 @@ def run(ctx: Ctx):
         if why:
             ctx.report("C08 oracle (sessions): " + why, {"kind": "session", "source": p["source"], "bytecode": p.get("bytecode"), "after": o["f2"], "output": o["tail"]}, tag=classify(p, {"f2": o["f2"]}))
     ctx.coverage["oracle"]["session_pairs"] = len(sp)
+    # lists / tuples / dict displays / constructor calls nested in each other: a run with fix,update (and more), then a run with any approved set
+    from .. import nestassign as na
+    na.check_second_run(ctx, 200 if not ctx.thorough else 3000, "C08")
 
 
 def _consistent(c):
@@ -176,6 +179,9 @@ def _canon(v, old):
 
 
 def replay(ctx: Ctx, data):
+    if isinstance(data.get("case"), dict) and data["case"].get("kind") == "nest-twice":
+        from .. import nestassign as na
+        return na.replay_case(data["case"])
     c = data["case"]
     if c.get("kind") == "prog":
         o = run_twice({"source": c["source"], "flags": tuple(c["flags"]), "setup": c["setup"]})
